@@ -1,10 +1,10 @@
 //@ unit L_pos
 //@ props C05 C02
 //@ strength proved-unbounded
-//@ min-verified 6
+//@ min-verified 8
 //@ assume Coverage::glyph_coverage_value and ClassDef::glyph_class_value are used through their contracts (proved in L_cov); abstracted here as uninterpreted functions
-//@ assume struct invariants established by the sub-table readers (not verified here): every Class1Record holds class2_count Class2Records; every BaseRecord holds mark_class_count anchors. They are stated as preconditions (wf).
-//@ unverified the sub-table readers, MarkLigPos::apply, ValueRecord decoding, gpos.rs callers and iteration strategies
+//@ assume struct invariants established by the sub-table readers (not verified here): every Class1Record holds class2_count Class2Records; every BaseRecord and every ligature ComponentRecord holds mark_class_count anchors. They are stated as preconditions (wf).
+//@ unverified the sub-table readers, ValueRecord decoding, gpos.rs callers and iteration strategies
 use vstd::prelude::*;
 use std::rc::Rc;
 verus! {
@@ -32,6 +32,10 @@ pub type VariationIndex = DeltaSetIndexMapEntry;
 //@ item src/layout.rs | struct MarkRecord | derive=
 //@ item src/layout.rs | struct BaseArray | derive=
 //@ item src/layout.rs | struct BaseRecord | derive=
+//@ item src/layout.rs | struct MarkLigPos | derive=
+//@ item src/layout.rs | struct LigatureArray | derive=
+//@ item src/layout.rs | struct LigatureAttach | derive=
+//@ item src/layout.rs | struct ComponentRecord | derive=
 
 pub uninterp spec fn cov_index(c: Coverage, g: u16) -> Option<u16>;
 pub uninterp spec fn class_of(c: ClassDef, g: u16) -> u16;
@@ -147,6 +151,31 @@ impl MarkBasePos {
                 if class >= self.mark_class_count { r is Err && r->Err_0 == ParseError::BadIndex } else {
                     r is Ok && r->Ok_0 == (if self.base_array.base_records@[b].base_anchors@[class] is Some
                         { Some((self.base_array.base_records@[b].base_anchors@[class]->Some_0, self.mark_array.mark_records@[m].mark_anchor)) } else { None })
+                } } }),
+//@ end
+}
+
+impl MarkLigPos {
+    pub open spec fn wf(&self) -> bool {
+        forall|i: int, j: int| 0 <= i < self.ligature_array.ligature_attaches@.len() && 0 <= j < self.ligature_array.ligature_attaches@[i].component_records@.len()
+            ==> (#[trigger] self.ligature_array.ligature_attaches@[i].component_records@[j]).ligature_anchors@.len() == self.mark_class_count
+    }
+//@ fn src/layout.rs | impl MarkLigPos | apply
+//@ ret r
+//@ spec
+    requires self.wf()
+    ensures
+        // anchor of the ligature COMPONENT the mark belongs to, selected by the mark's class
+        (cov_index(*self.liga_coverage, glyph1) is None || cov_index(*self.mark_coverage, glyph2) is None) ==> r is Ok && r->Ok_0 is None,
+        cov_index(*self.liga_coverage, glyph1) is Some && cov_index(*self.mark_coverage, glyph2) is Some ==> ({
+            let l = cov_index(*self.liga_coverage, glyph1)->Some_0 as int;
+            let m = cov_index(*self.mark_coverage, glyph2)->Some_0 as int;
+            if m >= self.mark_array.mark_records@.len() { r is Err && r->Err_0 == ParseError::BadIndex } else {
+                let class = self.mark_array.mark_records@[m].mark_class as int;
+                if class >= self.mark_class_count || l >= self.ligature_array.ligature_attaches@.len() { r is Err && r->Err_0 == ParseError::BadIndex } else {
+                    let comps = self.ligature_array.ligature_attaches@[l].component_records@;
+                    r is Ok && r->Ok_0 == (if liga_component_index < comps.len() && comps[liga_component_index as int].ligature_anchors@[class] is Some
+                        { Some((comps[liga_component_index as int].ligature_anchors@[class]->Some_0, self.mark_array.mark_records@[m].mark_anchor)) } else { None })
                 } } }),
 //@ end
 }
